@@ -1366,7 +1366,10 @@ class NiftiWrapper(object):
 
             #First try per time/vector sample values
             if classes == ('time', 'samples'):
-                return values[index[3]]
+                val_idx = index[3]
+                if len(shape) == 5:
+                    val_idx += index[4] * shape[3]
+                return values[val_idx]
             if classes == ('vector', 'samples'):
                 return values[index[4]]
 
